@@ -397,8 +397,8 @@ def dropComments (q : List MEv) : List MEv :=
     | .ev (.comment _) => false
     | _ => true
 
-def filterSel (dropc : Bool) (s : MStream) : MStream :=
-  filterGo (if dropc then dropComments else id) .idle [] s
+/-- `Transformer.filter(f)` -/
+def filterSel (f : List MEv → List MEv) (s : MStream) : MStream := filterGo f .idle [] s
 
 /-! ### chains -/
 
@@ -416,8 +416,9 @@ inductive Op where
   | prepend (c : Content) | append (c : Content)
   | attr (name : QName) (v : Option Str) | rename (n : QName)
   | copy (id : Nat) (acc : Bool) | cut (id : Nat) (acc : Bool) | buffer
-  | mapBang (all : Bool) | subst (pat rep : Str) (count : Nat) | filter (dropc : Bool)
-  deriving Repr, Inhabited
+  | mapBang (all : Bool) | subst (pat rep : Str) (count : Nat)
+  | filter (f : List MEv → List MEv)      -- any stream filter (as a function on event lists)
+  deriving Inhabited
 
 abbrev Bufs := List (Nat × List MEv)
 
@@ -456,7 +457,7 @@ def applyOp (b : Bufs) : Op → MStream → Option (MStream × Bufs)
   | .buffer, s => some (s, b)
   | .mapBang all, s => some (mapBang all s, b)
   | .subst p r n, s => some (substitute p r n s, b)
-  | .filter d, s => some (filterSel d s, b)
+  | .filter f, s => some (filterSel f s, b)
 
 def runChain : List Op → Bufs → MStream → Option (MStream × Bufs)
   | [], b, s => some (s, b)
